@@ -229,7 +229,7 @@ for col, cname in [("w", "White"), ("b", "Black")]:
     add(f"c06_check_{col}", ["C06"], "quick",
         f"player_is_in_check({cname}) <=> {cname}'s king square lies in the attack map requested for the OPPONENT on THIS board; current_player_is_in_check asks about the side to move",
         ["player_is_in_check", "current_player_is_in_check"], "fully symbolic Disjoint board; A arbitrary", stubs=[NOSPILL, GENSTUB], module=EV, est_s=60)
-    add(f"c06_ending_{col}", ["C06"], "quick",
+    add(f"c06_ending_{col}", ["C06", "C18"], "quick",
         f"game_ending / player_is_in_checkmate for {cname} to move: Checkmate <=> no legal move and in check; Stalemate <=> no legal move and not in check; otherwise None; legal moves and attack map requested for the right sides on this board",
         ["game_ending", "player_is_in_checkmate", "current_player_is_in_check"],
         "fully symbolic Disjoint board; symbolic emptiness of the legal-move list; A arbitrary; repetition count != 3 and half-move clock < 50 (below every draw threshold); board.turn() == side asked about (what callers pass)",
@@ -276,6 +276,11 @@ for k, kn in [("std", "standard capture"), ("promo", "capturing promotion"), ("e
 add("c13_sel", ["C13"], "quick",
     "get_ambiguous_moves on a symbolic board and a symbolic 3-entry candidate list: selects exactly the other candidates with the same piece kind on their origin, the same destination and a different origin; board only read",
     ["get_ambiguous_moves", "Board::get"], "fully symbolic Disjoint board; 3 symbolic candidates whose origins are occupied", stubs=[NOSPILL], module=AN, est_s=300)
+add("c13_wire_enumerate", ["C13"], "quick",
+    "enumerate_candidate_moves_with_algebraic_notation: requests the annotated move list once for the colour asked about, and returns exactly one (move, label) pair per listed move -- each listed move exactly once, including promotions that share origin and destination",
+    ["enumerate_candidate_moves_with_algebraic_notation"], "fully symbolic Disjoint board, symbolic colour; three marker moves from the stubbed generator (two promotions with the same origin and destination, one standard move)",
+    stubs=[NOSPILL, "MoveGenerator::generate_moves_and_lazily_update_chess_move_effects -> three marker moves + argument record (contract: c06_effect_wire_*, C01); chess_move_to_algebraic_notation -> recorder returning an empty String (contract: c13_dis_*, c13_sel, c13_parts, mir::san_assembly)"],
+    module=AN, est_s=120, native=["c13w_gen", "c13w_label"])
 add("c13_parts", ["C13"], "quick",
     "fixed-text selectors: 'x' exactly for captures (en passant included), '+' / '#' / nothing from the move effect, 'O-O' / 'O-O-O', no promotion suffix on non-promotions",
     ["get_capture_char", "get_check_or_checkmate_char", "algebraic_castle", "get_promotion_chars"], "symbolic squares, capture tag, effect, colour", module=AN, est_s=60)
@@ -297,7 +302,7 @@ for kind in ["std", "promo", "ep", "oo", "ooo"]:
             STEP_ASSUME, stubs=[VSTUB], module=MG, est_s=200)
     
 for col, cname in [("w", "White"), ("b", "Black")]:
-    add(f"c06_effect_wire_{col}", ["C06"], "quick",
+    add(f"c06_effect_wire_{col}", ["C06", "C13"], "quick",
         f"generate_moves_and_lazily_update_chess_move_effects for {cname}: every listed move is annotated exactly once, with the opponent of the side to move; the annotated list is returned",
         ["MoveGenerator::generate_moves_and_lazily_update_chess_move_effects", "lazily_update_chess_move_effect_for_checks_and_checkmates"],
         "fully symbolic Disjoint board; two marker moves from the stubbed generator",
@@ -334,7 +339,7 @@ for col, cname in [("w", "White"), ("b", "Black")]:
         ["expand_piece_targets", "PieceSet::get", "Bitboard::pop_lsb"], "fully symbolic Disjoint board; one symbolic (square, targets) entry with <=27 targets disjoint from own pieces", stubs=[NOSPILL], module=MG, unwind=30, est_s=400, heavy=True, native=[])
     add(f"c01_slider_{col}", ["C01", "C06", "C11"], "thorough",
         f"generate_sliding_targets for {cname} (k-piece shape: own king + <=2 further own pieces of symbolic kind and square, opponent side fully symbolic): one entry per own rook/bishop/queen with targets == lookup(square) minus own pieces (queen: rook|bishop lookup), nothing for other pieces, lookups given the whole-board occupancy",
-        ["Targets::generate_sliding_targets"], "k-piece shape, see claim", stubs=[NOSPILL, UFSTUB], module=MG, unwind=66, est_s=600, heavy=True, native=[])
+        ["Targets::generate_sliding_targets"], "k-piece shape, see claim", stubs=[NOSPILL, UFSTUB], module=MG, unwind=66, est_s=600, heavy=True, native=["uf_rook", "uf_bishop"])
     for pc in ["knight", "king"]:
         add(f"c01_leaper_{pc}_{col}", ["C01", "C06"], "thorough",
             f"generate_targets_from_precomputed_tables({pc}) for {cname} with uninterpreted tables: entries == {{(sq, table[sq] minus own pieces) : sq holds an own {pc}, set non-empty}}, complete and duplicate-free",
